@@ -40,9 +40,11 @@ package kvm
 
 // The interpreter entry points: gas never grows. What the executed code does to balances is the
 // interpreter's business (assumed to conserve value; DESIGN section 3 C09, assumption A).
-//@ trusted func (kvm *KVM) Create(caller ContractRef, code []byte, gas uint64, value *big.Int) (ret []byte, contractAddr common.Address, leftOverGas uint64, err error)
-//@   modifies StateDB.bal, StateDB.nonce, StateDB.refund, StateDB.snapBal, StateDB.snapNonce
-//@   ensures leftOverGas <= gas
+//@ func (kvm *KVM) Create(caller ContractRef, code []byte, gas uint64, value *big.Int) (ret []byte, contractAddr common.Address, leftOverGas uint64, err error)
+//@   for C09 C10
+//@   requires kvm != nil && kvm.StateDB != nil && caller != nil && value != nil && value.v >= 0
+//@   modifies StateDB.bal, StateDB.nonce, StateDB.refund, StateDB.snapBal, StateDB.snapNonce, StateDB.nextSnap
+//@   ensures [gasNeverGrows] leftOverGas <= gas
 //@ trusted func (kvm *KVM) ChainConfig() (r *configs.ChainConfig)
 //@   ensures r == kvm.chainConfig
 
@@ -95,7 +97,7 @@ package kvm
 //@ func (kvm *KVM) Call(caller ContractRef, addr common.Address, input []byte, gas uint64, value *big.Int) (ret []byte, leftOverGas uint64, err error)
 //@   for C09 C10
 //@   requires kvm != nil && kvm.StateDB != nil && caller != nil && value != nil && value.v >= 0
-//@   modifies *
+//@   modifies StateDB.bal, StateDB.nonce, StateDB.refund, StateDB.snapBal, StateDB.snapNonce, StateDB.nextSnap
 //@   ensures [gasNeverGrows] leftOverGas <= gas
 //@   ensures [failedFrameReverted] err != nil ==> kvm.StateDB.bal == old(kvm.StateDB.bal) && kvm.StateDB.nonce == old(kvm.StateDB.nonce)
 //@   ensures [depthLimit] old(kvm.depth) > 1024 && !(old(kvm.vmConfig.NoRecursion) && old(kvm.depth) > 0) ==> err == ErrDepth
@@ -105,7 +107,7 @@ package kvm
 //@ func (kvm *KVM) create(caller ContractRef, codeAndHash *codeAndHash, gas uint64, value *big.Int, address common.Address, typ OpCode) (ret []byte, addr common.Address, leftOverGas uint64, err error)
 //@   for C09 C10
 //@   requires kvm != nil && kvm.StateDB != nil && caller != nil && value != nil && value.v >= 0 && codeAndHash != nil
-//@   modifies *
+//@   modifies StateDB.bal, StateDB.nonce, StateDB.refund, StateDB.snapBal, StateDB.snapNonce, StateDB.nextSnap
 //@   ensures [gasNeverGrows] leftOverGas <= gas
 //@   ensures [rejectedUntouched] err == ErrDepth || err == ErrInsufficientBalance ==> kvm.StateDB.bal == old(kvm.StateDB.bal) && kvm.StateDB.nonce == old(kvm.StateDB.nonce)
 //@   ensures [failedCreationKeepsNonceBump] err != nil && err != ErrDepth && err != ErrInsufficientBalance ==> kvm.StateDB.bal == old(kvm.StateDB.bal) && kvm.StateDB.nonce == upd(old(kvm.StateDB.nonce), refAddr(caller), toUint64(old(kvm.StateDB.nonce)[refAddr(caller)] + 1))
